@@ -1,1 +1,233 @@
--- property theorems of C08 (not built yet)
+/-
+  C08 — prior transforms are monotone inverse-CDF maps in the declared space.
+
+  Theorems over ℝ about `Taurex.Priors` (`mkUniform`, `mkLogUniform`, `mkLogUniformLin`, `mkLogGaussian`, `defaultPrior`,
+  `Prior.sample`, `Prior.back`, `Prior.boundaries`, `parseToks`/`printToks`), the same definitions `driver_c08` executes
+  against `taurex.core.priors` / `parse_priors` / `create_prior` (harness/c08.py).
+
+  Externals: `scipy.stats.uniform.ppf(u, loc, scale) = u*scale + loc`; `scipy.stats.norm.ppf(u, loc, scale) =
+  ppf u * scale + loc` where `ppf` (= `scipy.special.ndtri`) is a parameter, assumed monotone (resp. a right inverse of
+  the standard normal CDF `Φ`) exactly where a theorem says so.
+-/
+import Proofs.C08
+
+namespace Taurex.C08
+open Taurex.Priors
+
+/-! ### uniform priors -/
+
+/-- the order of the two bounds is irrelevant -/
+theorem uniform_order_free (a b : ℝ) :
+    mkUniform a b = mkUniform b a ∧ mkLogUniform a b = mkLogUniform b a := by
+  simp [mkUniform, mkLogUniform, pyMin_real, pyMax_real, min_comm, max_comm]
+
+/-- the stored bounds are (min, max) whatever the order given -/
+theorem uniform_boundaries (a b : ℝ) (ppf : ℝ → ℝ) :
+    (mkUniform a b).boundaries ppf = (min a b, max a b) ∧ (mkLogUniform a b).boundaries ppf = (min a b, max a b) := by
+  simp [mkUniform, mkLogUniform, Prior.boundaries, pyMin_real, pyMax_real]
+
+/-- `sample` of a uniform prior is `low + (high - low) * u` -/
+theorem uniform_sample (a b u : ℝ) (ppf : ℝ → ℝ) :
+    (mkUniform a b).sample ppf u = min a b + (max a b - min a b) * u ∧
+    (mkLogUniform a b).sample ppf u = min a b + (max a b - min a b) * u := by
+  simp only [mkUniform, mkLogUniform, Prior.sample, uniformPpf, pyMin_real, pyMax_real]
+  constructor <;> ring
+
+/-- monotone in `u`, strictly when the bounds differ -/
+theorem uniform_mono (a b : ℝ) (ppf : ℝ → ℝ) :
+    Monotone ((mkUniform a b).sample ppf) ∧ (a ≠ b → StrictMono ((mkUniform a b).sample ppf)) ∧
+    Monotone ((mkLogUniform a b).sample ppf) ∧ (a ≠ b → StrictMono ((mkLogUniform a b).sample ppf)) := by
+  have hw : 0 ≤ max a b - min a b := sub_nonneg.2 (min_le_max)
+  have hs : a ≠ b → 0 < max a b - min a b := by
+    intro h
+    rcases lt_or_gt_of_ne h with h | h
+    · rw [max_eq_right h.le, min_eq_left h.le]; linarith
+    · rw [max_eq_left h.le, min_eq_right h.le]; linarith
+  refine ⟨?_, ?_, ?_, ?_⟩
+  · intro u v huv
+    simp only [(uniform_sample a b _ ppf).1]
+    nlinarith [mul_le_mul_of_nonneg_left huv hw]
+  · intro h u v huv
+    simp only [(uniform_sample a b _ ppf).1]
+    nlinarith [mul_lt_mul_of_pos_left huv (hs h)]
+  · intro u v huv
+    simp only [(uniform_sample a b _ ppf).2]
+    nlinarith [mul_le_mul_of_nonneg_left huv hw]
+  · intro h u v huv
+    simp only [(uniform_sample a b _ ppf).2]
+    nlinarith [mul_lt_mul_of_pos_left huv (hs h)]
+
+/-- the unit interval is mapped onto `[low, high]`: end points, range, surjectivity -/
+theorem uniform_onto (a b : ℝ) (ppf : ℝ → ℝ) :
+    (mkUniform a b).sample ppf 0 = min a b ∧ (mkUniform a b).sample ppf 1 = max a b ∧
+    (∀ u, 0 ≤ u → u ≤ 1 → min a b ≤ (mkUniform a b).sample ppf u ∧ (mkUniform a b).sample ppf u ≤ max a b) ∧
+    (∀ x, min a b ≤ x → x ≤ max a b → ∃ u, 0 ≤ u ∧ u ≤ 1 ∧ (mkUniform a b).sample ppf u = x) := by
+  have hw : 0 ≤ max a b - min a b := sub_nonneg.2 (min_le_max)
+  refine ⟨?_, ?_, ?_, ?_⟩
+  · rw [(uniform_sample a b 0 ppf).1]; ring
+  · rw [(uniform_sample a b 1 ppf).1]; ring
+  · intro u h0 h1
+    rw [(uniform_sample a b u ppf).1]
+    constructor
+    · nlinarith [mul_nonneg hw h0]
+    · nlinarith [mul_le_mul_of_nonneg_left h1 hw]
+  · intro x hlo hhi
+    by_cases h : max a b - min a b = 0
+    · refine ⟨0, le_refl _, zero_le_one, ?_⟩
+      rw [(uniform_sample a b 0 ppf).1]
+      linarith
+    · have hpos : 0 < max a b - min a b := lt_of_le_of_ne hw (Ne.symm h)
+      refine ⟨(x - min a b) / (max a b - min a b), div_nonneg (by linarith) hw, ?_, ?_⟩
+      · rw [div_le_one hpos]; linarith
+      · rw [(uniform_sample a b _ ppf).1, mul_div_cancel₀ _ h]; ring
+
+/-- inverse-CDF identity: the CDF of the uniform distribution on `[low, high]`, evaluated at `sample u`, is `u` -/
+theorem uniform_inverse_cdf (a b u : ℝ) (ppf : ℝ → ℝ) (h : a ≠ b) :
+    ((mkUniform a b).sample ppf u - min a b) / (max a b - min a b) = u := by
+  have hs : max a b - min a b ≠ 0 := by
+    rcases lt_or_gt_of_ne h with h | h
+    · rw [max_eq_right h.le, min_eq_left h.le]; intro e; linarith
+    · rw [max_eq_left h.le, min_eq_right h.le]; intro e; linarith
+  rw [(uniform_sample a b u ppf).1]
+  field_simp
+  ring
+
+/-! ### log space -/
+
+/-- `lin_bounds = b` is the same prior as `bounds = log10 b`; non-positive linear bounds are refused -/
+theorem log_lin_equiv (l0 l1 : ℝ) :
+    (0 < l0 → 0 < l1 → mkLogUniformLin l0 l1 = some (mkLogUniform (log10 l0) (log10 l1))) ∧
+    (¬ (0 < l0 ∧ 0 < l1) → mkLogUniformLin l0 l1 = none) := by
+  constructor
+  · intro h0 h1
+    simp [mkLogUniformLin, log10?, h0, h1]
+  · intro h
+    unfold mkLogUniformLin log10?
+    by_cases h0 : 0 < l0
+    · have h1 : ¬ 0 < l1 := fun h1 => h ⟨h0, h1⟩
+      simp [h0, h1]
+    · simp [h0]
+
+/-- `lin_mean = m` is the same prior as `mean = log10 m`, `lin_std = s` as `std = log10 s`; absent ones keep `mean`/`std` -/
+theorem log_lin_equiv_gaussian (mean std lm ls : ℝ) (hm : 0 < lm) (hs : 0 < ls) :
+    mkLogGaussian mean std (some lm) none = mkLogGaussian (log10 lm) std none none ∧
+    mkLogGaussian mean std none (some ls) = mkLogGaussian mean (log10 ls) none none ∧
+    mkLogGaussian mean std none none = some (.logGaussian mean std) := by
+  simp [mkLogGaussian, log10?, hm, hs]
+
+/-- what reaches the model: `x` for the linear classes, `10 ** x` for the log classes; so a log-space coordinate
+    `log10 v` comes back as `v` -/
+theorem prior_back (p : Prior ℝ) (x v : ℝ) (hv : 0 < v) :
+    (p.mode = .linear → p.back x = x) ∧ (p.mode = .log → p.back x = (10 : ℝ) ^ x ∧ p.back (log10 v) = v) := by
+  constructor
+  · intro h; simp [Prior.back, h]
+  · intro h
+    have := pow10_log10 v hv
+    simp only [Prior.back, h]
+    exact ⟨rfl, this⟩
+
+/-- the two `Log…` classes and only they live in log space -/
+theorem mode_of_class (a b : ℝ) :
+    (mkUniform a b).mode = .linear ∧ (mkLogUniform a b).mode = .log ∧ (mkGaussian a b).mode = .linear ∧
+    (∀ p, mkLogGaussian a b none none = some p → p.mode = .log) := by
+  simp [mkUniform, mkLogUniform, mkGaussian, mkLogGaussian, Prior.mode]
+
+/-! ### Gaussian priors -/
+
+/-- with a positive width and a monotone standard-normal quantile function, `sample` is monotone (strictly if `ppf` is) -/
+theorem gaussian_mono (mean std : ℝ) (hs : 0 < std) (ppf : ℝ → ℝ) :
+    (Monotone ppf → Monotone ((mkGaussian mean std).sample ppf)) ∧
+    (StrictMono ppf → StrictMono ((mkGaussian mean std).sample ppf)) ∧
+    (Monotone ppf → Monotone ((Prior.logGaussian mean std).sample ppf)) := by
+  refine ⟨?_, ?_, ?_⟩
+  · intro hp u v huv
+    simp only [mkGaussian, Prior.sample, normPpf]
+    nlinarith [mul_le_mul_of_nonneg_right (hp huv) hs.le]
+  · intro hp u v huv
+    simp only [mkGaussian, Prior.sample, normPpf]
+    nlinarith [mul_lt_mul_of_pos_right (hp huv) hs]
+  · intro hp u v huv
+    simp only [Prior.sample, normPpf]
+    nlinarith [mul_le_mul_of_nonneg_right (hp huv) hs.le]
+
+/-- inverse-CDF identity: if `ppf` is a right inverse of the standard normal CDF `Φ` at `u`, then the CDF of
+    N(mean, std²) at `sample u` is `u` -/
+theorem gaussian_inverse_cdf (mean std u : ℝ) (hs : 0 < std) (ppf Φ : ℝ → ℝ) (hΦ : Φ (ppf u) = u) :
+    Φ (((mkGaussian mean std).sample ppf u - mean) / std) = u := by
+  simp only [mkGaussian, Prior.sample, normPpf]
+  have : (ppf u * std + mean - mean) / std = ppf u := by
+    rw [add_sub_cancel_right, mul_div_cancel_right₀ _ (ne_of_gt hs)]
+  rw [this, hΦ]
+
+/-- `boundaries()` of a Gaussian are its 10 % and 90 % quantiles -/
+theorem gaussian_boundaries (mean std : ℝ) (ppf : ℝ → ℝ) :
+    (mkGaussian mean std).boundaries ppf = (ppf 0.1 * std + mean, ppf 0.9 * std + mean) := by
+  simp [mkGaussian, Prior.boundaries, Prior.sample, normPpf]
+
+/-! ### default priors -/
+
+/-- the default prior derives from the parameter's mode and bounds: uniform between the bounds in linear mode,
+    log-uniform between their log10 in log mode (positive bounds), and no default exists for a log-mode parameter
+    with a non-positive bound -/
+theorem default_from_bounds (b0 b1 : ℝ) :
+    defaultPrior .linear b0 b1 = some (.uniform (min b0 b1) (max b0 b1)) ∧
+    (0 < b0 → 0 < b1 → defaultPrior .log b0 b1 =
+        some (.logUniform (min (log10 b0) (log10 b1)) (max (log10 b0) (log10 b1)))) ∧
+    (¬ (0 < b0 ∧ 0 < b1) → defaultPrior .log b0 b1 = none) := by
+  refine ⟨?_, ?_, ?_⟩
+  · simp [defaultPrior, mkUniform, pyMin_real, pyMax_real]
+  · intro h0 h1
+    simp [defaultPrior, mkLogUniformLin, mkLogUniform, log10?, h0, h1, pyMin_real, pyMax_real]
+  · intro h
+    exact (log_lin_equiv b0 b1).2 h
+
+/-! ### prior text -/
+
+/-- **Print/parse round trip, token level.**  For every call (any name, any keyword list, numbers carried as
+    literal tokens) the parser recovers exactly the call from its printed token sequence.
+
+    Full statement intended by the design: `parsePrior (printPrior c) = some c` on strings, for every call whose name
+    and keywords are identifiers and whose numbers are literals of the documented form.  Missing here: the
+    character-level lexer (`lex (text of tokens) = tokens`); it is exercised by the correspondence check only
+    (`parsePrior (printPrior c) = c` is evaluated by the driver on every generated text, and the printed text is
+    fed to the real `parse_priors`). -/
+theorem parse_print_partial (c : Call String) : parseToks (printToks c) = some c := by
+  unfold parseToks printToks
+  simp only
+  rw [parseArgs_printArgs c.args _ (length_printArgs_ge c.args)]
+
+/-! ### non-vacuity -/
+
+example : (mkUniform (5 : ℝ) (-2)).boundaries id = (-2, 5) := by
+  rw [(uniform_boundaries 5 (-2) id).1]; norm_num
+
+example : (mkUniform (5 : ℝ) (-2)).sample id 0.25 = -0.25 := by
+  rw [(uniform_sample 5 (-2) 0.25 id).1]; norm_num
+
+example : StrictMono ((mkUniform (5 : ℝ) (-2)).sample id) := (uniform_mono 5 (-2) id).2.1 (by norm_num)
+
+example : mkLogUniformLin (1 : ℝ) 100 = some (mkLogUniform (log10 1) (log10 100)) :=
+  (log_lin_equiv 1 100).1 (by norm_num) (by norm_num)
+
+example : mkLogUniformLin (-1 : ℝ) 100 = none := (log_lin_equiv (-1) 100).2 (by norm_num)
+
+/-- a monotone `ppf` exists (the hypotheses of `gaussian_mono` / `gaussian_inverse_cdf` are satisfiable) -/
+example : StrictMono ((mkGaussian (1 : ℝ) 2).sample id) := (gaussian_mono 1 2 (by norm_num) id).2.1 strictMono_id
+
+example : (id : ℝ → ℝ) ((id : ℝ → ℝ) 0.3) = 0.3 := rfl
+
+example : (Prior.logUniform (0 : ℝ) 1).back (log10 100) = 100 :=
+  ((prior_back (.logUniform 0 1) 0 100 (by norm_num)).2 rfl).2
+
+example : defaultPrior FitMode.log (1 : ℝ) 100 ≠ none := by
+  rw [(default_from_bounds 1 100).2.1 (by norm_num) (by norm_num)]; simp
+
+/-- the documented example `LogUniform(lin_bounds=(1e-12, 1e-2))` round-trips through the token printer -/
+example : parseToks (printToks ⟨"LogUniform", [("lin_bounds", .tuple ["1e-12", "1e-2"])]⟩) =
+    some ⟨"LogUniform", [("lin_bounds", .tuple ["1e-12", "1e-2"])]⟩ := parse_print_partial _
+
+/-- …and the text itself lexes and parses to that call -/
+example : parsePrior "LogUniform(lin_bounds=(1e-12, 1e-2))" =
+    some ⟨"LogUniform", [("lin_bounds", .tuple ["1e-12", "1e-2"])]⟩ := by decide +kernel
+
+end Taurex.C08
